@@ -246,6 +246,7 @@ func runC12(cx *ctx) {
 			})
 		}
 	}
+	c12Extra(cx)
 }
 
 // damage returns a modified payload and a description.
